@@ -1,139 +1,4 @@
-/-
-C14 — Transport failure yields a clean prefix and then an error.
-
-Packet layer (`Model/PacketReader.lean`): whatever the read schedule, a stream cut at byte `k`
-yields exactly the packets completely received before `k`, then the end event (an error on the
-connection's error queue for EOF / reset — for EOF inside a packet after the read timeout; a hanging
-transport blocks). Channel layer (`Model/ChanRx.lean`): the packages delivered from a prefix of the
-response bytes are those of the complete packages in it — never a package built from incomplete
-data, never the synthetic final DONE.
--/
-import Dblib.Lemmas.PacketReader
-import Dblib.Props.C03
-
-namespace Dblib.Props.C14
-open Dblib Dblib.Reader
-
-/-- the packets of `ps` lying completely within the first `k` bytes of their serialisation -/
-def completeWithin : List Packet → Nat → List Packet
-  | [], _ => []
-  | p :: ps, k => if 8 + p.data.length ≤ k then p :: completeWithin ps (k - (8 + p.data.length)) else []
-
-theorem wireOf_cons (p : Packet) (ps : List Packet) (hp : HdrOK p) :
-    wireOf (p :: ps) = hdrBytes p.hdr ++ (p.data ++ wireOf ps) := by
-  simp [wireOf, packetBytes_ok p hp]
-
-/-- **Packet layer: clean prefix.** For every list of well-formed packets, every byte offset `k`
-at which the stream ends, every read schedule and every way the transport ends: the reader
-produces exactly the packets complete within `k` bytes, followed by the end event. -/
-theorem c14_packets_clean_prefix (ps : List Packet) : ∀ (k : Nat) (sched : List Nat) (fin : Fin) (fuel : Nat),
-    (∀ p ∈ ps, HdrOK p) → ps.length < fuel →
-    readLoop fuel ⟨(wireOf ps).take k, sched, fin⟩
-      = (completeWithin ps k).map Ev.packet ++ [endEv fin] := by
-  induction ps with
-  | nil =>
-    intro k sched fin fuel _ hf
-    cases fuel with
-    | zero => simp at hf
-    | succ fuel =>
-      simp only [wireOf, List.map_nil, List.flatten_nil, List.take_nil, completeWithin, List.nil_append]
-      rw [readLoop, readPacket_end sched fin [] (by simp)]
-  | cons p ps ih =>
-    intro k sched fin fuel hok hf
-    have hp := hok p (by simp)
-    have hl : (hdrBytes p.hdr).length = 8 := by simp [hdrBytes]
-    cases fuel with
-    | zero => simp at hf
-    | succ fuel =>
-      rw [wireOf_cons p ps hp, readLoop]
-      by_cases hk : 8 + p.data.length ≤ k
-      · have hsplit : (hdrBytes p.hdr ++ (p.data ++ wireOf ps)).take k
-            = hdrBytes p.hdr ++ (p.data ++ (wireOf ps).take (k - (8 + p.data.length))) := by
-          rw [List.take_append, List.take_of_length_le (by omega), List.take_append,
-            List.take_of_length_le (by omega), hl]
-          congr 3; omega
-        rw [hsplit]
-        obtain ⟨s', hr⟩ := readPacket_ok p hp ((wireOf ps).take (k - (8 + p.data.length))) sched fin
-        rw [hr]
-        simp only [completeWithin, hk, if_true, List.map_cons, List.cons_append, List.singleton_append]
-        rw [ih _ s' fin fuel (fun q hq => hok q (by simp [hq])) (by simpa using hf)]
-        simp
-      · have hsplit : (hdrBytes p.hdr ++ (p.data ++ wireOf ps)).take k = (hdrBytes p.hdr ++ p.data).take k := by
-          rw [← List.append_assoc, List.take_append_of_le_length (by simp [hl]; omega)]
-        rw [hsplit, readPacket_cut p hp k sched fin (by omega)]
-        simp [completeWithin, hk]
-
-/-- **Packet layer: reads of any size (C02).** The complete stream of well-formed packets is
-read as exactly these packets, whatever the read schedule — including schedules that split a
-header or a body. -/
-theorem c02_chunking_irrelevant (ps : List Packet) (sched : List Nat) (fin : Fin) (fuel : Nat)
-    (hok : ∀ p ∈ ps, HdrOK p) (hf : ps.length < fuel) :
-    readLoop fuel ⟨wireOf ps, sched, fin⟩ = ps.map Ev.packet ++ [endEv fin] := by
-  have h := c14_packets_clean_prefix ps (wireOf ps).length sched fin fuel hok hf
-  rw [List.take_length] at h
-  rw [h]
-  congr 2
-  clear h hf
-  induction ps with
-  | nil => rfl
-  | cons p ps ih =>
-    have hp := hok p (by simp)
-    have hl : (hdrBytes p.hdr).length = 8 := by simp [hdrBytes]
-    rw [wireOf_cons p ps hp]
-    have : 8 + p.data.length ≤ (hdrBytes p.hdr ++ (p.data ++ wireOf ps)).length := by simp [hl]
-    simp only [completeWithin, this, if_true]
-    congr 1
-    have : (hdrBytes p.hdr ++ (p.data ++ wireOf ps)).length - (8 + p.data.length) = (wireOf ps).length := by
-      simp [hl]; omega
-    rw [this]
-    exact ih (fun q hq => hok q (by simp [hq]))
-
-/-! ## channel layer -/
-
-open Dblib.Rx Dblib.Props.C02 in
-/-- **Channel layer: no package from incomplete data, no spurious final DONE.** From the first `k`
-bytes of a response (end of message not yet received) the channel emits exactly the events of the
-first `j` packages, for some `j` — those whose bytes have arrived completely. -/
-theorem c14_channel_clean_prefix {Pkg : Type} (ops : Ops Pkg)
-    (hI : ∀ tok last p, ops.select tok last = .parser p → Incr p)
-    (last : Option Pkg) (T : Bytes) (pkgs : List Pkg) (hW : WholeP ops last T pkgs) :
-    ∀ (rx : Rx Pkg) (k : Nat), ∃ j, j ≤ pkgs.length ∧
-      (run ops (withBuf rx last (T.take k) false)).2.1 = (pkgs.take j).flatMap (acceptEv ops rx.nEed rx.nEnv) := by
-  induction hW with
-  | nil last =>
-    intro rx k
-    refine ⟨0, Nat.le_refl _, ?_⟩
-    simp only [List.take_nil]
-    rw [run_nil ops _ rfl]
-    simp [withBuf]
-  | cons last tok rest p pkg n pkgs hs hp hW ih =>
-    intro rx k
-    obtain ⟨hn, hstab, hshort⟩ := hI tok last p hs rest pkg n hp
-    cases k with
-    | zero =>
-      refine ⟨0, Nat.zero_le _, ?_⟩
-      simp only [List.take_zero]
-      rw [run_nil ops _ rfl]
-      simp [withBuf]
-    | succ k =>
-      rw [take_succ_cons]
-      by_cases hk : k < n
-      · refine ⟨0, Nat.zero_le _, ?_⟩
-        rw [run_cons_short ops _ tok (rest.take k) p rfl hs (hshort k hk)]
-        simp [withBuf]
-      · have hsplit : rest.take k = rest.take n ++ (rest.drop n).take (k - n) := by
-          have : k = n + (k - n) := by omega
-          conv => lhs; rw [this, List.take_add]
-        have h1 : p (rest.take k) = .ok pkg n := by rw [hsplit]; exact hstab _
-        have hdrop : (rest.take k).drop n = (rest.drop n).take (k - n) := by
-          rw [hsplit, List.drop_append_of_le_length (by simp [List.length_take]; omega),
-            List.drop_of_length_le (by simp [List.length_take]; omega)]
-          simp
-        obtain ⟨j, hj, hev⟩ := ih rx (k - n)
-        refine ⟨j + 1, by simp; omega, ?_⟩
-        rw [run_cons_ok ops _ tok _ p pkg n rfl hs h1]
-        simp only [withBuf] at hev ⊢
-        rw [hdrop, hev]
-        simp [List.flatMap_cons]
-
-end Dblib.Props.C14
+-- C14: abstract theorems (any parser family with the incremental law) and their instantiation
+-- with the transcribed package decoders (Model/Codec/Pkg.lean)
+import Dblib.Props.C14.Abstract
+import Dblib.Props.C14.Concrete
